@@ -204,6 +204,7 @@ def explore(module, tier, seed, jobs=None, progress=True):
     bound = check.bound()
     cap = check.max_states()
     all_results = []
+    keep_results = type(check).finalize is not Check.finalize     # only cross-state oracles need them
     nontriv_keys = set()
     try:
         for depth in range(bound + 1):
@@ -235,7 +236,8 @@ def explore(module, tier, seed, jobs=None, progress=True):
                 if len(res.samples) < 4 or (o.nontrivial and len(res.samples) < 8):
                     res.samples.append({"depth": depth, "state": check.describe(st),
                                         "outcome": _short(o.note if o.note is not None else o.key)})
-                all_results.append((st, o))
+                if keep_results:
+                    all_results.append((st, o))
                 if o.digest is not None:
                     if o.digest in digests:
                         continue   # reached state already explored: do not expand again
